@@ -283,31 +283,30 @@ func unpackBundleFileList(ctx context.Context, bundle *Bundle,
 	bundle.l.Info("preallocating bundle entries",
 		zap.Uint64("max entries", maxBundleEntries),
 	)
-	bundle.BundleEntries = make([]model.BundleEntry, maxBundleEntries)
+	bundle.BundleEntries = make([]model.BundleEntry, 0, maxBundleEntries)
+
+	// Any index file may hold fewer than bundleEntriesPerFile entries (DeleteEntriesFromRepo shrinks
+	// index files in place): keep the entries of each index file apart, then concatenate them in order.
+	parts := make([][]model.BundleEntry, bundle.BundleDescriptor.BundleEntriesFileCount)
 
 	var gotDoneSignal bool
 	for !gotDoneSignal {
 		select {
 		case res := <-bundleEntriesC:
-			startIdx := int(res.idx) * int(bundleEntriesPerFile)
-			copy(bundle.BundleEntries[startIdx:], res.bundleEntries.BundleEntries)
-			if res.idx+1 == bundle.BundleDescriptor.BundleEntriesFileCount {
-				missingEntries := int(bundleEntriesPerFile) - len(res.bundleEntries.BundleEntries)
-				if missingEntries < 0 {
-					return fmt.Errorf("%v is greater than expected number of bundle entries %v",
-						len(res.bundleEntries.BundleEntries), bundleEntriesPerFile)
-				}
-				bundle.BundleEntries = bundle.BundleEntries[:len(bundle.BundleEntries)-missingEntries]
-			} else if uint(len(res.bundleEntries.BundleEntries)) != bundleEntriesPerFile {
-				return fmt.Errorf("%v is not expected number of bundle entries %v",
+			if uint(len(res.bundleEntries.BundleEntries)) > bundleEntriesPerFile {
+				return fmt.Errorf("%v is greater than expected number of bundle entries %v",
 					len(res.bundleEntries.BundleEntries), bundleEntriesPerFile)
 			}
+			parts[res.idx] = res.bundleEntries.BundleEntries
 		case err := <-errorC:
 			bundle.l.Error("unpack bundle filelist failed", zap.Error(err))
 			return err
 		case <-doneOkC:
 			gotDoneSignal = true
 		}
+	}
+	for _, part := range parts {
+		bundle.BundleEntries = append(bundle.BundleEntries, part...)
 	}
 	return nil
 }
